@@ -1,8 +1,119 @@
-import XehModel.Driver.Codec
+import XehModel.Model.Compile
+import XehModel.Model.ParseS
+import XehModel.Driver.VMCodec
 
 namespace Xeh.Driver.C01
+open Xeh Xeh.Codec Xeh.VMCodec Xeh.Compile Xeh.Structured
 
-/-- stub: not modelled yet -/
-def handle (_args : List String) : String := "unsupported"
+/-- `w<hex name>` or `l<cell>` -/
+def parseTok (s : String) : Option Tok :=
+  match s.toList with
+  | 'w' :: r => (hexToStr r).map fun n => .word (String.ofList n)
+  | 'l' :: r => (readCell (String.ofList r)).map .lit
+  | _ => none
+
+def parseToks (s : String) : Option (List Tok) :=
+  if s.isEmpty then some [] else (s.splitOn "|").mapM parseTok
+
+structure Req where
+  toks : List Tok := []
+  setup : Setup := {}
+
+def applyKV (r : Req) (kv : String) : Option Req :=
+  let (k, v) := splitKV kv
+  if k == "toks" then (parseToks v).map fun t => { r with toks := t }
+  else (VMCodec.applyKV r.setup kv).map fun s => { r with setup := s }
+
+def dmapStr (d : List Nat) : String := ",".intercalate (d.map toString)
+
+/-- compile the tokens on top of the machine described by the setup -/
+def compile (r : Req) : CRes CState :=
+  let m := r.setup.m
+  let s0 : CState := { code := m.code, dmap := List.replicate m.code.length 0, dict := m.dict,
+                       heapLen := m.heap.length, heapLimit := m.heapLimit }
+  compileToks r.toks 0 s0
+
+/-- `C01 build toks=… dict=… heap=… lim=…` → the compiler's answer only -/
+def handleBuild (r : Req) : String :=
+  match compile r with
+  | .unsupported _ => "unsupported"
+  | .err e => s!"err {errStr e.err} tok={e.tok}"
+  | .ok s => s!"ok code={showCode (s.code.drop r.setup.m.code.length)} dmap={dmapStr (s.dmap.drop r.setup.m.code.length)}"
+
+/-- `C01 eval …` → build, then run from the first new opcode (what `eval` does on an idle interpreter) -/
+def handleEval (r : Req) : String :=
+  match compile r with
+  | .unsupported _ => "unsupported"
+  | .err e => s!"builderr {errStr e.err} tok={e.tok}"
+  | .ok s =>
+    let m := r.setup.m
+    let m1 : Mach := { m with code := s.code, dict := s.dict,
+                              heap := m.heap ++ List.replicate (s.heapLen - m.heap.length) Cell.nil,
+                              ctx := { m.ctx with ip := m.code.length } }
+    match Mach.run nativeProg runFuel m1 with
+    | none => "timeout"
+    | some (.panic p, m2) => if p.startsWith "model:" then "unsupported" else s!"panic@{dump r.setup.full m2}"
+    | some (o, m2) =>
+      let tok := match o with
+        | .ok _ => ""
+        | _ => s!" tok={(s.dmap[m2.ctx.ip]?).getD 0}"
+      s!"{outcomeStr o}{tok}@{dump r.setup.full m2}"
+
+/-- depth budget of the structural evaluator in the driver (programs run under an instruction limit of
+    a few thousand; deeper evaluations answer `timeout`, which is inconclusive, never a disagreement) -/
+def structFuel : Nat := 2500
+
+/-- observable part of a machine for the structural comparison: everything but ip, meter and log -/
+def obs (m : Mach) : String :=
+  dump false { m with ctx := { m.ctx with ip := 0 } } ++ s!",out={String.ofList (strToHex m.out)},stop={if m.aboutToStop then 1 else 0}"
+
+/-- `C01 struct …`: (1) the flow-stack compiler's output equals `compileS (parseS toks)`;
+    (2) the VM run of that code and `evalS` end in the same observable machine / error / token -/
+def handleStruct (r : Req) : String :=
+  match compile r with
+  | .unsupported _ => "unsupported"
+  | .err _ => "unsupported"
+  | .ok s =>
+    let m := r.setup.m
+    if m.code.length != 0 then "unsupported" else
+    match parseS r.toks { dict := m.dict, heapLen := m.heap.length } with
+    | none => "unsupported"
+    | some (st, _) =>
+      let cs := compileS st .none none
+      let tv := if cs.map (·.1) == s.code && cs.map (·.2) == s.dmap then "same" else s!"DIFF structural={showCode (cs.map (·.1))} flow={showCode s.code}"
+      let m1 : Mach := { m with code := s.code, dict := s.dict,
+                                heap := m.heap ++ List.replicate (s.heapLen - m.heap.length) Cell.nil }
+      let vm := match Mach.run nativeProg runFuel m1 with
+        | none => "timeout"
+        | some (.panic p, m2) => if p.startsWith "model:" then "unsupported" else s!"panic@{obs m2}"
+        | some (.ok _, m2) => s!"ok@{obs m2}"
+        | some (.err e, m2) => s!"err {errStr e} tok={(s.dmap[m2.ctx.ip]?).getD 0}@{obs m2}"
+      let ev := match evalS nativeProg structFuel st m1 with
+        | .ok m2 => s!"ok@{obs m2}"
+        | .err e t m2 => s!"err {errStr e} tok={t}@{obs m2}"
+        | .panic p t m2 => if p.startsWith "model:" then "unsupported" else s!"panic@{obs m2}"
+        | .brk _ _ => "stray-break"
+        | .exitCase _ => "stray-exitcase"
+        | .timeout => "timeout"
+      if vm == "unsupported" || ev == "unsupported" then "unsupported"
+      else if vm == "timeout" || ev == "timeout" then s!"tv={tv} sem=timeout"
+      else s!"tv={tv} sem={if vm == ev then "same" else s!"DIFF vm={vm} structural={ev}"}"
+
+def handle (args : List String) : String :=
+  match args with
+  | "vm" :: rest => handleVm rest
+  | "build" :: rest =>
+    match rest.foldlM applyKV {} with
+    | some r => handleBuild r
+    | none => "bad-args"
+  | "struct" :: rest =>
+    match rest.foldlM applyKV {} with
+    | some r => handleStruct r
+    | none => "bad-args"
+  | "eval" :: rest =>
+    match rest.foldlM applyKV {} with
+    | some r => handleEval r
+    | none => "bad-args"
+  | _ => "bad-op"
 
 end Xeh.Driver.C01
